@@ -35,12 +35,18 @@ type LockOrderCase struct {
 	Batch       int    `json:"batch"`
 	HoldMs      int    `json:"holdMs"`     // how long the search stays parked after the batch was started
 	SecondKind  string `json:"secondKind"` // vamana | flat
+	// delays (microseconds) that widen two windows inside the batch: after a goroutine of the batch has
+	// found the first index's cache in the manager (before it locks it), and at the first storage read
+	// inside the construct function of the second index's cache
+	DelayLookupUs int `json:"delayLookupUs,omitempty"`
+	DelayCreateUs int `json:"delayCreateUs,omitempty"`
 }
 
 func genLockOrder(t *rapid.T) LockOrderCase {
 	return LockOrderCase{CacheLimit: rapid.SampledFrom([]int64{1 << 30, 1 << 30, 4000, -1, 0}).Draw(t, "cacheLimit"), ParkAt: rapid.IntRange(1, 4).Draw(t, "parkAt"),
 		SecondFirst: rapid.Bool().Draw(t, "secondFirst"), Prefix: rapid.IntRange(1, 6).Draw(t, "prefix"), Batch: rapid.IntRange(1, 4).Draw(t, "batch"),
-		HoldMs: rapid.SampledFrom([]int{1, 5, 20}).Draw(t, "holdMs"), SecondKind: rapid.SampledFrom([]string{"vamana", "flat"}).Draw(t, "secondKind")}
+		HoldMs: rapid.SampledFrom([]int{1, 5, 20}).Draw(t, "holdMs"), SecondKind: rapid.SampledFrom([]string{"vamana", "vamana", "flat"}).Draw(t, "secondKind"),
+		DelayLookupUs: rapid.SampledFrom([]int{0, 0, 200, 1000, 3000}).Draw(t, "delayLookup"), DelayCreateUs: rapid.SampledFrom([]int{0, 0, 500, 2000, 6000}).Draw(t, "delayCreate")}
 }
 
 func execLockOrder(c LockOrderCase) (res vt.Result) {
@@ -85,6 +91,7 @@ func execLockOrder(c LockOrderCase) (res vt.Result) {
 	parked := make(chan struct{})
 	release := make(chan struct{})
 	var once sync.Once
+	var createOnce sync.Once
 	s.Proxy.SetHooks(&drive.Hooks{Op: func(tx *drive.ProxyTx, kind string, n int64) {
 		if !tx.Write && tx.Goid == searchGoid.Load() && n == int64(c.ParkAt) {
 			once.Do(func() {
@@ -92,8 +99,24 @@ func execLockOrder(c LockOrderCase) (res vt.Result) {
 				<-release
 			})
 		}
+		if tx.Write && c.DelayCreateUs > 0 && n > 2 {
+			buf := make([]byte, 1<<14)
+			if st := string(buf[:runtime.Stack(buf, false)]); strings.Contains(st, "cache.(*Transaction).With") && (strings.Contains(st, "vamana.NewIndexVamana") || strings.Contains(st, "flat.NewIndexFlat")) {
+				createOnce.Do(func() { time.Sleep(time.Duration(c.DelayCreateUs) * time.Microsecond) })
+			}
+		}
 	}})
 	defer s.Proxy.SetHooks(nil)
+	if c.DelayLookupUs > 0 {
+		var lookupOnce sync.Once
+		lookup := func(name string, readOnly bool) {
+			if !readOnly && strings.HasSuffix(name, "index/vectorFlat/"+gen.PFlat) {
+				lookupOnce.Do(func() { time.Sleep(time.Duration(c.DelayLookupUs) * time.Microsecond) })
+			}
+		}
+		cache.VerifLookupFn.Store(&lookup)
+		defer cache.VerifLookupFn.Store(nil)
+	}
 	searchDone := make(chan error, 1)
 	go func() {
 		searchGoid.Store(drive.Goid())
